@@ -118,8 +118,9 @@ def make_scratch(tag, model_maps=False, harness=True, repo=None, harness_dir=Non
         # capacity 0 loses the vtable half of the first element it stores.  `Vec::new()` and
         # `Vec::with_capacity(n)` differ only in allocation strategy, never in observable
         # behaviour, so the scratch copy pre-sizes every vector.
-        src = re.sub(r"\bVec::new\(\)", "Vec::with_capacity(8)", src)
-        if m == "dns_cache":
+        if not os.environ.get("VERIF_NO_PRESIZE"):
+            src = re.sub(r"\bVec::new\(\)", "Vec::with_capacity(8)", src)
+        if m == "dns_cache" and not os.environ.get("VERIF_NO_PRESIZE"):
             src = src.replace(".or_default()", ".or_insert_with(|| Vec::with_capacity(8))")
         hp = os.path.join(hdir, m + "_harness.rs")
         if os.path.exists(hp):
